@@ -9,6 +9,7 @@ F6  no trapping arithmetic on numbers taken from tokens
 F7  a parser function that fails has reported an error; Ok results only without recorded errors
 F8  the literal parser only parses literal children when asked to
 F12 every node the literal parser can build in literal mode has an arm of its own in into_literal
+F13 cross-reference: self-containing type definitions are rejected before function bodies are checked (C17-T16), else check / compile overflow the stack
 F10 AST-chosen indices in the type checker are compared with the length before they are used
 F11 cross-reference: forward const references, unknown / non-usize array-size consts and non-numeric const arithmetic are rejected by the
     checker (C17 T9 / T10 / T11); otherwise compile() panics on such text
@@ -704,6 +705,19 @@ def rule_f12(ctx):
     return res
 
 
+def rule_f13(ctx):
+    """Cross-reference: type definitions that contain themselves make the size computation and the exhaustiveness check recurse
+    without end (stack overflow aborts the process): they must be rejected before function bodies are checked (C17-T16)."""
+    from . import C17
+    res = RuleResult("F13", "self-containing type definitions are rejected before anything recurses over them (cross-reference to C17-T16)")
+    sub = C17.rule_t16(ctx)
+    for x in sub.findings:
+        res.bad(Finding("F13", x.fn, x.site, x.message, x.span))
+    if not sub.findings:
+        res.ok({"verdict": "C17-T16 holds"})
+    return res
+
+
 def run(ctx):
     out = []
 
@@ -713,7 +727,7 @@ def run(ctx):
             return r
         g.__name__ = fn.__name__
         return g
-    results = ctx.run_rules([rule_f1_f2, rule_f3, rule_f4_f5, rule_f6, rule_f7, rule_f8, rule_f10, rule_f11, rule_f12])
+    results = ctx.run_rules([rule_f1_f2, rule_f3, rule_f4_f5, rule_f6, rule_f7, rule_f8, rule_f10, rule_f11, rule_f12, rule_f13])
     for r in results:
         if isinstance(r, list):
             out.extend(r)
